@@ -14,6 +14,9 @@ package main
 //   rP<pin token> / rU<cid>   the same at B (B is in sync with A's stream first); then wait until A merged it
 //   !<c..>                    arm failures of A's next publish attempts (b | t | e)
 //   f                         fill A's open batch with filler pins, wait for the full exchange
+//   c                         (after an f) stop A, Consensus.Clean on its datastore, start A again ON THE SAME
+//                             DATASTORE, reconnect; B re-announces its heads; wait until A holds B's pinset
+//                             (bounded). Output: C/<view of A>
 // step outputs (';' separated):
 //   L<o|r|e>/<deltas>/<hooks>/<view>   F<fillers>/<deltas>/<hooks>/<view>   R<delta|->/<hooks>/<view>   !
 //   deltas: A's nodes that became heads during the step, '+' separated;
@@ -203,7 +206,7 @@ func (w *compWorld) isHeadOf(i int, x string) bool {
 
 func validCompStep(st string) bool {
 	switch {
-	case st == "f":
+	case st == "f" || st == "c":
 		return true
 	case strings.HasPrefix(st, "!"):
 		return len(st) >= 2 && len(st) <= 4 && strings.Trim(st[1:], "bte") == ""
@@ -246,9 +249,13 @@ func runComp(emit func(string), cfgTok, script string) {
 
 	tag := fmt.Sprintf("comp-%x", common.Seed()) + strconv.FormatInt(time.Now().UnixNano(), 36)
 	seed := func(i int) string { return fmt.Sprintf("%s-%d", tag, i) }
+	var reuse *ctlDS
 	mk := func(i int) (*cpeer, error) {
 		pc := peerCfg{seed: seed(i), listen: true, trustAll: true, queue: 50, rebcast: 400 * time.Millisecond, idOf: seed,
 			clusterNm: "verif-" + tag}
+		if i == 0 {
+			pc.store = reuse
+		}
 		if i == 0 && bc.mode == 'Z' {
 			pc.maxSize, pc.maxAge, pc.queue = bc.maxSize, longAge, bc.queue
 		}
@@ -259,7 +266,7 @@ func runComp(emit func(string), cfgTok, script string) {
 		emit(fmt.Sprintf("# inconclusive comp peer setup: %v", err))
 		return
 	}
-	defer a.close()
+	defer func() { a.close() }()
 	b, err := mk(1)
 	if err != nil {
 		emit(fmt.Sprintf("# inconclusive comp peer setup: %v", err))
@@ -386,6 +393,56 @@ func runComp(emit func(string), cfgTok, script string) {
 		case st[0] == '!':
 			a.store.arm(classesOf(st[1:])...)
 			tr = append(tr, "!")
+		case st == "c":
+			// stop, clean, restart on the same datastore
+			a.cc.Shutdown(ctx)
+			if err := a.cc.Clean(ctx); err != nil {
+				infra = "Clean failed"
+			}
+			a.h.Close()
+			a.cancel()
+			w.mu.Lock()
+			w.have[0], w.merged[0] = map[string]bool{}, map[string]bool{}
+			w.mu.Unlock()
+			reuse = a.store
+			na, err := mk(0)
+			if err != nil {
+				emit(fmt.Sprintf("# inconclusive comp restart: %v", err))
+				return
+			}
+			a = na
+			a.store.onAttempt = func() int { return 0 }
+			a.h.Peerstore().AddAddrs(b.h.ID(), b.h.Addrs(), peerstore.PermanentAddrTTL)
+			dctx, cancel := context.WithTimeout(ctx, 10*time.Second)
+			_, err = a.h.Network().DialPeer(dctx, b.h.ID())
+			cancel()
+			if err != nil {
+				infra = "redial failed"
+			}
+			uncommitted, sinceFlush = 0, 0
+			// B re-announces its heads every 400ms: A walks the DAG again
+			// (wait until A has fetched every node again and is quiet, then for B's pinset, bounded)
+			deadline := time.Now().Add(6 * time.Second)
+			for time.Now().Before(deadline) {
+				w.mu.Lock()
+				all := true
+				for _, hs := range w.heads {
+					for _, x := range hs {
+						if !w.have[0][x] {
+							all = false
+						}
+					}
+				}
+				w.mu.Unlock()
+				if all && a.store.quietFor(10*time.Millisecond) {
+					break
+				}
+				time.Sleep(2 * time.Millisecond)
+			}
+			state, _ := waitState(a, vt, b.state(vt), 2*time.Second)
+			a.store.waitQuiet(8*time.Millisecond, 2*time.Second)
+			a.trk.take()
+			tr = append(tr, "C/"+state)
 		case st == "f":
 			var fl []string
 			addFiller := func() {
@@ -476,9 +533,15 @@ func genCompScript(r *common.Rng) (string, string) {
 		}
 		if r.Chance(1, 6) {
 			st = append(st, "f")
+			if r.Chance(1, 2) {
+				st = append(st, "c")
+			}
 		}
 	}
 	st = append(st, "f")
+	if r.Chance(1, 5) {
+		st = append(st, "c", "f")
+	}
 	return cfg, strings.Join(st, ";")
 }
 
